@@ -722,6 +722,42 @@ func (env *Env) callExpr(x *ECall) (*Term, types.Type) {
 			return U64(t), nil
 		}
 		return Op("bv2nat", SInt, t), nil
+	case "heapof":
+		// the current value of a heap class as an array (for recursive spec functions that
+		// walk a data structure): "big", "F:<pkg>.<Type>.<field>", "E:<elem type>"
+		ks, ok := x.Args[0].(*EStr)
+		if !ok {
+			efail("heapof needs a string class key")
+		}
+		k := ks.S
+		s, ok := env.fc.heapSorts[k]
+		if !ok {
+			if k == "big" {
+				s = bigSort
+			} else if t, ok2 := classVal[k]; ok2 && strings.HasPrefix(k, "F:") {
+				s = SArr(SRef, SortOf(t))
+			} else if t, ok2 := classVal[k]; ok2 && strings.HasPrefix(k, "E:") {
+				s = SArr(SRef, SArr(SBV64, SortOf(t)))
+			} else {
+				efail("heapof: unknown heap class %s", k)
+			}
+		}
+		return env.fc.get(st, k, s), nil
+	case "store":
+		a, _ := arg(0)
+		i, _ := arg(1)
+		v, _ := arg(2)
+		if !a.sort.IsArr() {
+			efail("store: first argument is not an array")
+		}
+		is, es := a.sort.ArrParts()
+		if n, ok := pendingNums[i]; ok {
+			i = numAs(n, is)
+		}
+		if n, ok := pendingNums[v]; ok {
+			v = numAs(n, es)
+		}
+		return Store(a, i, v), nil
 	case "L":
 		t, _ := arg(0)
 		return L64(env.resolveNum(t)), types.Typ[types.Uint64]
@@ -824,6 +860,11 @@ func (env *Env) callExpr(x *ECall) (*Term, types.Type) {
 			}
 			md.body = b
 		}
+		savedPkg := env.pkg
+		if mp := env.fc.eng.pkgByPath(md.pkg); mp != nil {
+			env.pkg = mp
+		}
+		defer func() { env.pkg = savedPkg }()
 		savedVars, savedLets, savedAt := env.vars, env.lets, env.at
 		nv := map[string]envVar{}
 		for i, p := range md.params {
